@@ -273,12 +273,18 @@ func (a *Box2) lineIntersect(l *Line2) *Line2 {
 	u := l[0]
 	v := l[1].Sub(l[0])
 
-	if v.Y == 0 && u.Y == a.Max.Y {
+	// A segment along the top or right box edge belongs to the neighbouring box.
+	// The end points get snapped to the box edges, so "along the edge" has to
+	// mean "within the snapping tolerance of it": otherwise a segment an ulp
+	// inside the edge is kept here and also by the neighbour (which snaps it
+	// onto its own bottom/left edge).
+
+	if v.Y == 0 && EqualFloat64(u.Y, a.Max.Y, tolerance) {
 		// no solutions on the top box edge
 		return nil
 	}
 
-	if v.X == 0 && u.X == a.Max.X {
+	if v.X == 0 && EqualFloat64(u.X, a.Max.X, tolerance) {
 		// no solutions on the right box edge
 		return nil
 	}
